@@ -303,6 +303,7 @@ def build_life(cfg, scratch, life, director, extra_settings=None):
         new.update(extra_settings)
     armiboot.SCENARIO["actors"] = cfg["actors"]
     armiboot.SCENARIO["director"] = director
+    armiboot.SCENARIO["_classes"] = {}
     try:
         cs = settings.Settings(fname)
         cs = cs.modified(newSettings=new)
@@ -312,7 +313,7 @@ def build_life(cfg, scratch, life, director, extra_settings=None):
     infos = []
     for lst in pm.hook.exposeInterfaces(cs=cs):
         for info in lst:
-            infos.append((float(info.order), info.interfaceCls.name, dict(info.kwargs)))
+            infos.append((float(info.order), info.interfaceCls.name, dict(info.kwargs), info.interfaceCls.function, [k.__name__ for k in info.interfaceCls.__mro__]))
     try:
         o = operators.factory(cs)
         # the operator's own validation of the cycle history
